@@ -251,7 +251,8 @@ class DistinctCountCheck(AbstractCheck):
         fields.field_name_index(self._field_name_to_count, available_field_names, location)
         line_where_field_name_ends, column_where_field_name_ends = first_token[3]
         assert column_where_field_name_ends > 0
-        assert line_where_field_name_ends == 1
+        if line_where_field_name_ends != 1:
+            raise errors.InterfaceError("rule must be written in a single line", self.location_of_rule)
 
         # Build and test Python expression for validation.
         self._expression = DistinctCountCheck._COUNT_NAME + rule[column_where_field_name_ends:]
